@@ -12,29 +12,29 @@
      * Contig(a, b) <=> no byte of [a, b) is missing;
      * FreeUpTo(t) removes no byte at or after t and invents none; which bytes below t go is left open (Keep).
    Reading lowestOffset()/endOffset() and the node structure belong to the I-layer. *)
-EXTENDS Integers, Sequences, FiniteSets
+EXTENDS Integers, Sequences, FiniteSets, FiniteSetsExt
 VARIABLES segs, nextW
 pvars == <<segs, nextW>>
 
-Min(a, b) == IF a < b THEN a ELSE b
-Max(a, b) == IF a > b THEN a ELSE b
+Min2(a, b) == IF a < b THEN a ELSE b
+Max2(a, b) == IF a > b THEN a ELSE b
 Overlaps(S, a, b) == \E g \in S : g.s < b /\ a < g.e
 Covered(S, o) == \E g \in S : g.s <= o /\ o < g.e
 SegAt(S, o) == CHOOSE g \in S : g.s <= o /\ o < g.e
-RECURSIVE Reach(_, _)
-Reach(S, o) == IF Covered(S, o) THEN Reach(S, SegAt(S, o).e) ELSE o          \* first missing byte at or after o
-OverlapLen(g, a, b) == Max(0, Min(g.e, b) - Max(g.s, a))
-RECURSIVE SumOverlap(_, _, _)
-SumOverlap(S, a, b) == IF S = {} THEN 0 ELSE LET g == CHOOSE x \in S : TRUE IN OverlapLen(g, a, b) + SumOverlap(S \ {g}, a, b)
+(* first missing byte at or after o: o itself, or the end of a range behind which nothing follows *)
+Reach(S, o) == LET cand == {c \in {o} \cup {g.e : g \in {x \in S : x.e > o}} : ~Covered(S, c)}
+               IN CHOOSE c \in cand : \A d \in cand : c <= d
+OverlapLen(g, a, b) == Max2(0, Min2(g.e, b) - Max2(g.s, a))
+SumOverlap(S, a, b) == FoldSet(LAMBDA g, acc : acc + OverlapLen(g, a, b), 0, S)
 FullyIn(S, a, b) == SumOverlap(S, a, b) = b - a                              \* S disjoint: [a, b) lies inside S
 TaggedIn(S, w, a, b) == FullyIn({g \in S : g.w = w}, a, b)
 TotalLen(S) == SumOverlap(S, 0, 2147483647)
 Merged(K) == {[s |-> k.s, e |-> Reach(K, k.s)] : k \in {x \in K : ~\E j \in K : j.e = x.s}}   \* adjacent ranges joined
-ClipRaw(S, K) == {[s |-> Max(g.s, k.s), e |-> Min(g.e, k.e), w |-> g.w] : <<g, k>> \in {p \in S \X K : OverlapLen(p[1], p[2].s, p[2].e) > 0}}
+ClipRaw(S, K) == {[s |-> Max2(g.s, k.s), e |-> Min2(g.e, k.e), w |-> g.w] : <<g, k>> \in {p \in S \X K : OverlapLen(p[1], p[2].s, p[2].e) > 0}}
 Clip(S, K) == ClipRaw(S, Merged(K))
 Disjoint(S) == \A g, x \in S : g # x => ~(g.s < x.e /\ x.s < g.e)
 
-CopyLen(S, off, len) == Min(len, Reach(S, off) - off)
+CopyLen(S, off, len) == Min2(len, Reach(S, off) - off)
 RunsOK(S, off, n, runs) == /\ (n = 0) = (runs = <<>>)
                            /\ n > 0 => runs[1][2] = off /\ runs[Len(runs)][3] = off + n
                            /\ \A i \in DOMAIN runs : runs[i][2] < runs[i][3] /\ TaggedIn(S, runs[i][1], runs[i][2], runs[i][3])
@@ -49,7 +49,7 @@ Write(off, len, skip, ret) == /\ off >= 0 /\ len >= 1
                               /\ nextW' = nextW + 1
 (* Keep: disjoint ranges (records with fields s, e) that remain in memory *)
 FreeUpTo(t, Keep) == /\ segs' = Clip(segs, Keep)
-                     /\ \A g \in segs : g.e > t => FullyIn(Keep, Max(g.s, t), g.e)       \* nothing at or after t is lost
+                     /\ \A g \in segs : g.e > t => FullyIn(Keep, Max2(g.s, t), g.e)       \* nothing at or after t is lost
                      /\ TotalLen(Keep) = TotalLen(segs')                                  \* nothing is invented
                      /\ UNCHANGED nextW
 Copy(off, len, skip, ret, runs) == /\ len >= 1 /\ skip = ~Covered(segs, off)
